@@ -2,11 +2,15 @@ from check import Job
 from props.C20 import SN as SN20, R as R20
 EXPLANATION = 'lock discipline on the key and handshake state of Node: perform_handshake (transport accept thread), session_shared_key (session reader threads), rotate_session_keys (tick, under the node mutex) and session_key (control handlers, under the node mutex) are lifted from the current core/Node.cpp and run on a partial Node with the real KeyManager, KeyExchange and ReputationManager; every access to Node::key_manager_, Node::handshake_state_ and Node::reputation_ on every path is logged with the mutexes held, and every pair of roles that can run concurrently and touch the same member (one of them writing) must share a mutex'
 ASSUMPTIONS = ['a SUFFICIENT condition for race freedom (Eraser-style lock sets computed over all symbolic paths of each role), not an exploration of interleavings: a pair of accesses without a common mutex is reported only after the same roles, run as real threads under ThreadSanitizer, produced a data-race report',
-               'roles and what they hold are taken from the daemon: serve loop and control handlers hold the node mutex of src/main.cpp / ControlServer.cpp; SessionManager threads call into Node without it (SessionManager.cpp); only the four entry points above are encoded - the other handlers reached from session threads (handle_announce, handle_request, handle_chunk, ...) and the members they touch are outside the claim',
+               'roles and what they hold are taken from the daemon: serve loop and control handlers hold the node mutex of src/main.cpp / ControlServer.cpp; SessionManager threads call into Node without it (SessionManager.cpp); only these entry points and handle_announce (job locksets-announce: reader threads announcing concurrently) are encoded - the other handlers reached from session threads (handle_request, handle_chunk, ...) and the members they touch are outside the claim',
                'std::mutex / std::recursive_mutex are the pthread models of the engine (locking always succeeds; the set of held mutexes is tracked); 2 rounds of the four roles, symbolic offered key, nonce, cooldown and clock']
 SN = dict(SN20); SN.update({'SNIP_ROTATE_SESSION_KEYS': ('src/core/Node.cpp', 're:^[A-Za-z_:<>, 0-9]*\\bNode::rotate_session_keys\\('), 'SNIP_SESSION_KEY': ('src/core/Node.cpp', 're:^[A-Za-z_:<>, 0-9]*\\bNode::session_key\\('),
                             'SNIP_SESSION_SHARED_KEY': ('src/core/Node.cpp', 're:^[A-Za-z_:<>, 0-9]*\\bNode::session_shared_key\\(')})
 def jobs(tier):
-    return [Job('locksets', 'node_hs.cpp', 'h_c36_locksets', [0], defines=['VERIF_RACE=1'], reach=['roles-run'], snippets=SN, redirect=R20, timeout=1500,
+    from props.C21 import SNA
+    return [Job('locksets-announce', 'node_announce.cpp', 'h_c21_announce', [2, 0], reach=['admitted', 'refused'], snippets=SNA, timeout=3000,
+                lockset={'multi': ['reader-thread'], 'tsan_entry': 'h_c36_tsan_announce', 'known': {}},
+                bounds='role reader-thread running Node::handle_announce concurrently with itself; members manifest_cache_, dht_, peer_announce_history_ / lockouts_ / failure_history_, reputation_'),
+            Job('locksets', 'node_hs.cpp', 'h_c36_locksets', [0], defines=['VERIF_RACE=1'], reach=['roles-run'], snippets=SN, redirect=R20, timeout=1500,
                 lockset={'multi': ['reader-thread'], 'serialised': [['tick-thread', 'control-thread']], 'tsan_entry': 'h_c36_tsan', 'known': {}},
                 bounds='roles accept-thread / reader-thread / tick-thread / control-thread, 2 rounds, members key_manager_, handshake_state_, reputation_')]
